@@ -1030,6 +1030,11 @@ def gen_c20(seed, tier):
         place = r.pick([0, 1, "all", "all", "1+", "2+"])
         if site == "decrypt" or site == "encrypt":
             p["encrypt"] = True
+            if site == "decrypt" and r.chance(0.5):
+                # the tool breaks down in the middle of the delivery: the first decryption works, the later ones fail
+                place = r.pick(["1+", "1+", "2+"])
+                if r.chance(0.6):
+                    p["sign_assertion"], p["sign_response"] = False, True
             if site == "decrypt" and len(sp["enc_keys"]) > 1 and r.chance(0.5):
                 # the IdP uses the SP's second certificate: first decrypt attempt fails by itself
                 g.ev("setview", node=idp["name"], peer=sp["name"], spec=dict(sp, enc_keys=[sp["enc_keys"][1]]))
